@@ -430,3 +430,126 @@ Example C04_field_codec_owner_examples :
   CodecCompose.field_codec_owner xs (q "Series") = false /\ CodecCompose.field_codec_owner xs (q "Strs") = false /\
   CodecCompose.field_codec_owner xs (s "x.v1.Missing") = false /\ CodecCompose.field_codec_owner xs ts_name = true.
 Proof. exact CodecCompose.field_codec_owner_examples. Qed.
+
+(* ---- C04 for the root-unwrap codec (internal/httpgen/unwrap.go:783-982) in general: a message whose only field
+   carries (sebuf.http.unwrap) is written as the bare array / object of that field and read back from it, for
+   every schema and every well-typed value: root list of messages, root map<string, message>, root
+   map<string, Wrapper> (the combined form; [norm] keeps only the unwrap field of a wrapper), root list / map of
+   scalars (through encoding/json; a nil scalar slice or map is written as null and null is read as "nothing
+   set").  The schema side condition [unwrap_root_dom] only concerns enums that own a MarshalJSON. *)
+From SebufProofs Require UnwrapRootFacts UnwrapRootConforms UnwrapRootExamples.
+Theorem C04_roundtrip_unwrap_root : forall E, ExtLaws E -> forall sc tn md m j,
+  str_eqb tn ts_name = false -> is_wkt_other tn = false ->
+  find_message (all_messages sc) tn = Some md -> owner_of sc md = Own FtUnwrapRoot ->
+  UnwrapRootFacts.unwrap_root_dom sc md = true ->
+  wt sc (KMessage tn) (FM m) = true -> defects_C04 sc tn m = [] ->
+  encode E sc tn m = ROk j -> decode E sc tn j = ROk (norm sc tn m).
+Proof. exact UnwrapRootFacts.unwrap_root_roundtrip. Qed.
+Print Assumptions C04_roundtrip_unwrap_root.
+
+(* the shapes whose elements are messages: no side condition, no defect hypothesis *)
+Theorem C04_roundtrip_unwrap_root_messages : forall E, ExtLaws E -> forall sc tn md m j,
+  str_eqb tn ts_name = false -> is_wkt_other tn = false ->
+  find_message (all_messages sc) tn = Some md -> owner_of sc md = Own FtUnwrapRoot ->
+  UnwrapRootFacts.msg_elems sc md = true ->
+  wt sc (KMessage tn) (FM m) = true ->
+  encode E sc tn m = ROk j -> decode E sc tn j = ROk (norm sc tn m).
+Proof. exact UnwrapRootFacts.unwrap_root_roundtrip_messages. Qed.
+Print Assumptions C04_roundtrip_unwrap_root_messages.
+
+(* non-vacuity on the shared witness schema [xs]: BarList (root list of messages), Strs (root list of strings);
+   [root_hyps] bundles every hypothesis of the theorem (and of C05_conforms_unwrap_root_partial) *)
+Example C04_unwrap_root_nonvacuous_xs :
+  (let m := [(s "bars", FL [UnwrapRootExamples.leaf1; FM []])] in
+   let j := JArr [UnwrapRootExamples.leaf1_json; JObj []] in
+   UnwrapRootExamples.root_hyps xs (q "BarList") m /\
+   encode Ex xs (q "BarList") m = ROk j /\ to_json Ex xs (q "BarList") m = ROk j /\
+   decode Ex xs (q "BarList") j = ROk m /\ norm xs (q "BarList") m = m) /\
+  (let m := [(s "vals", FL [vstr "a"; vstr "b"])] in
+   let j := JArr [JStr (s "a"); JStr (s "b")] in
+   UnwrapRootExamples.root_hyps xs (q "Strs") m /\
+   encode Ex xs (q "Strs") m = ROk j /\ to_json Ex xs (q "Strs") m = ROk j /\
+   decode Ex xs (q "Strs") j = ROk m /\ norm xs (q "Strs") m = m) /\
+  encode Ex xs (q "BarList") [] = ROk (JArr []) /\ decode Ex xs (q "BarList") (JArr []) = ROk [] /\
+  encode Ex xs (q "Strs") [] = ROk JNull /\ decode Ex xs (q "Strs") JNull = ROk [].
+Proof. exact UnwrapRootExamples.unwrap_root_nonvacuous_xs. Qed.
+
+(* every other shape, on the schema [uws] of proofs/UnwrapRootExamples.v: root map of messages, the combined form
+   (the wrapper's other field is lost: norm), root map of strings, combined with string items, root list of doubles *)
+Example C04_unwrap_root_nonvacuous_shapes :
+  (let m := [(s "by_id", FMap [(VStr (s "a"), UnwrapRootExamples.leaf1); (VStr (s "b"), FM [])])] in
+   let j := JObj [(s "a", UnwrapRootExamples.leaf1_json); (s "b", JObj [])] in
+   UnwrapRootExamples.root_hyps UnwrapRootExamples.uws (q "LeafMap") m /\
+   encode Ex UnwrapRootExamples.uws (q "LeafMap") m = ROk j /\ to_json Ex UnwrapRootExamples.uws (q "LeafMap") m = ROk j /\
+   decode Ex UnwrapRootExamples.uws (q "LeafMap") j = ROk m /\ norm UnwrapRootExamples.uws (q "LeafMap") m = m) /\
+  (let m := [(s "pages", FMap [(VStr (s "p1"), FM [(s "items", FL [UnwrapRootExamples.leaf1]); (s "total", vint 3)]); (VStr (s "p2"), FM [])])] in
+   let m' := [(s "pages", FMap [(VStr (s "p1"), FM [(s "items", FL [UnwrapRootExamples.leaf1])]); (VStr (s "p2"), FM [])])] in
+   let j := JObj [(s "p1", JArr [UnwrapRootExamples.leaf1_json]); (s "p2", JArr [])] in
+   UnwrapRootExamples.root_hyps UnwrapRootExamples.uws (q "Book") m /\
+   encode Ex UnwrapRootExamples.uws (q "Book") m = ROk j /\ to_json Ex UnwrapRootExamples.uws (q "Book") m = ROk j /\
+   decode Ex UnwrapRootExamples.uws (q "Book") j = ROk m' /\ norm UnwrapRootExamples.uws (q "Book") m = m') /\
+  (let m := [(s "m", FMap [(VStr (s "a"), vstr "x")])] in
+   let j := JObj [(s "a", JStr (s "x"))] in
+   UnwrapRootExamples.root_hyps UnwrapRootExamples.uws (q "StrMap") m /\
+   encode Ex UnwrapRootExamples.uws (q "StrMap") m = ROk j /\ to_json Ex UnwrapRootExamples.uws (q "StrMap") m = ROk j /\
+   decode Ex UnwrapRootExamples.uws (q "StrMap") j = ROk m) /\
+  (let m := [(s "by_k", FMap [(VStr (s "a"), FM [(s "vals", FL [vstr "x"]); (s "total", vint 2)])])] in
+   let m' := [(s "by_k", FMap [(VStr (s "a"), FM [(s "vals", FL [vstr "x"])])])] in
+   let j := JObj [(s "a", JArr [JStr (s "x")])] in
+   UnwrapRootExamples.root_hyps UnwrapRootExamples.uws (q "TagCombo") m /\
+   encode Ex UnwrapRootExamples.uws (q "TagCombo") m = ROk j /\ to_json Ex UnwrapRootExamples.uws (q "TagCombo") m = ROk j /\
+   decode Ex UnwrapRootExamples.uws (q "TagCombo") j = ROk m' /\ norm UnwrapRootExamples.uws (q "TagCombo") m = m') /\
+  (let m := [(s "rs", FL [FS (VFloat 4609434218613702656)])] in
+   let j := JArr [jflt 4609434218613702656] in
+   UnwrapRootExamples.root_hyps UnwrapRootExamples.uws (q "Ratios") m /\
+   encode Ex UnwrapRootExamples.uws (q "Ratios") m = ROk j /\ to_json Ex UnwrapRootExamples.uws (q "Ratios") m = ROk j /\
+   decode Ex UnwrapRootExamples.uws (q "Ratios") j = ROk m).
+Proof. exact UnwrapRootExamples.unwrap_root_nonvacuous_shapes. Qed.
+
+Example C04_unwrap_root_messages_nonvacuous :
+  (exists md, find_message (all_messages xs) (q "BarList") = Some md /\ owner_of xs md = Own FtUnwrapRoot /\ UnwrapRootFacts.msg_elems xs md = true) /\
+  (exists md, find_message (all_messages UnwrapRootExamples.uws) (q "LeafMap") = Some md /\ owner_of UnwrapRootExamples.uws md = Own FtUnwrapRoot /\ UnwrapRootFacts.msg_elems UnwrapRootExamples.uws md = true) /\
+  (exists md, find_message (all_messages UnwrapRootExamples.uws) (q "Book") = Some md /\ owner_of UnwrapRootExamples.uws md = Own FtUnwrapRoot /\ UnwrapRootFacts.msg_elems UnwrapRootExamples.uws md = true) /\
+  (exists md, find_message (all_messages xs) (q "Strs") = Some md /\ owner_of xs md = Own FtUnwrapRoot /\ UnwrapRootFacts.msg_elems xs md = false).
+Proof. exact UnwrapRootExamples.unwrap_root_messages_nonvacuous. Qed.
+
+(* an enum with enum_value texts among the scalar elements *)
+Example C04_unwrap_root_nonvacuous_enum :
+  let m := [(s "cs", FL [FS (VEnum 1); FS (VEnum 2); FS (VEnum 0)])] in
+  let j := JArr [JStr (s "red"); JStr (s "blue"); JStr (s "COLOR_UNSPECIFIED")] in
+  (exists md, find_message (all_messages UnwrapRootExamples.uws) (q "Colors") = Some md /\ owner_of UnwrapRootExamples.uws md = Own FtUnwrapRoot /\
+              UnwrapRootFacts.unwrap_root_dom UnwrapRootExamples.uws md = true) /\
+  wt UnwrapRootExamples.uws (KMessage (q "Colors")) (FM m) = true /\ defects_C04 UnwrapRootExamples.uws (q "Colors") m = [] /\
+  encode Ex UnwrapRootExamples.uws (q "Colors") m = ROk j /\ decode Ex UnwrapRootExamples.uws (q "Colors") j = ROk m.
+Proof. exact UnwrapRootExamples.unwrap_root_nonvacuous_enum. Qed.
+
+(* refutations: each side condition is needed *)
+(* two enum values sharing one enum_value text: DUP_B is read back as DUP_A *)
+Example C04_roundtrip_unwrap_root_needs_enum_texts_distinct :
+  let m := [(s "ds", FL [FS (VEnum 1)])] in
+  (exists md, find_message (all_messages UnwrapRootExamples.uws) (q "Dups") = Some md /\ owner_of UnwrapRootExamples.uws md = Own FtUnwrapRoot /\
+              UnwrapRootFacts.unwrap_root_dom UnwrapRootExamples.uws md = false) /\
+  wt UnwrapRootExamples.uws (KMessage (q "Dups")) (FM m) = true /\ defects_C04 UnwrapRootExamples.uws (q "Dups") m = [] /\
+  encode Ex UnwrapRootExamples.uws (q "Dups") m = ROk (JArr [JStr (s "same")]) /\
+  decode Ex UnwrapRootExamples.uws (q "Dups") (JArr [JStr (s "same")]) = ROk [(s "ds", FL [FS (VEnum 0)])] /\
+  norm UnwrapRootExamples.uws (q "Dups") m = m.
+Proof. exact UnwrapRootExamples.unwrap_root_roundtrip_needs_enum_texts_distinct. Qed.
+(* an undefined number of an enum with a MarshalJSON INSIDE a wrapper: defects_C04 = [] (the classifier only looks
+   at the root field), yet "99" is not read back *)
+Example C04_roundtrip_unwrap_root_needs_no_codec_enum_in_wrapper :
+  let m := [(s "by_k", FMap [(VStr (s "a"), FM [(s "cs", FL [FS (VEnum 99)])])])] in
+  (exists md, find_message (all_messages UnwrapRootExamples.uws) (q "ColorCombo") = Some md /\ owner_of UnwrapRootExamples.uws md = Own FtUnwrapRoot /\
+              UnwrapRootFacts.unwrap_root_dom UnwrapRootExamples.uws md = false) /\
+  wt UnwrapRootExamples.uws (KMessage (q "ColorCombo")) (FM m) = true /\ defects_C04 UnwrapRootExamples.uws (q "ColorCombo") m = [] /\
+  encode Ex UnwrapRootExamples.uws (q "ColorCombo") m = ROk (JObj [(s "a", JArr [JStr (s "99")])]) /\
+  decode Ex UnwrapRootExamples.uws (q "ColorCombo") (JObj [(s "a", JArr [JStr (s "99")])]) = RErr (s "unknown enum value").
+Proof. exact UnwrapRootExamples.unwrap_root_roundtrip_needs_no_codec_enum_in_wrapper. Qed.
+(* the same at the root is D4EnumCodecUnknown: the hypothesis defects_C04 = [] is needed *)
+Example C04_roundtrip_unwrap_root_needs_defect_free :
+  let m := [(s "cs", FL [FS (VEnum 99)])] in
+  (exists md, find_message (all_messages UnwrapRootExamples.uws) (q "Colors") = Some md /\ owner_of UnwrapRootExamples.uws md = Own FtUnwrapRoot /\
+              UnwrapRootFacts.unwrap_root_dom UnwrapRootExamples.uws md = true) /\
+  wt UnwrapRootExamples.uws (KMessage (q "Colors")) (FM m) = true /\ defects_C04 UnwrapRootExamples.uws (q "Colors") m = [D4EnumCodecUnknown] /\
+  encode Ex UnwrapRootExamples.uws (q "Colors") m = ROk (JArr [JStr (s "99")]) /\
+  decode Ex UnwrapRootExamples.uws (q "Colors") (JArr [JStr (s "99")]) = RErr (s "unknown enum value").
+Proof. exact UnwrapRootExamples.unwrap_root_roundtrip_needs_defect_free. Qed.
